@@ -4,7 +4,7 @@ from contracts_types import *
 NAME = 'crop'
 FEATURES = []
 USES = ['use vstd::string::*;', 'use vstd::utf8::*;']
-PRELUDE = ['crop.spec.rs', 'crop.shim.rs']
+PRELUDE = ['crop.spec.rs', 'crop.breaks.spec.rs', 'crop.shim.rs']
 SUBST = []
 SN = 'src/de/snippet.rs'
 P = ['C17', 'C01']
@@ -73,6 +73,16 @@ ITEMS = location_types() + [
     dict(src=SN, path='enum LineMapping', derive='#[derive(Clone, Copy)]'),
     dict(src=SN, path='fn sanitize_terminal_snippet_preserve_len', trusted=True, props=[],
          ensures=[('proved_in_unit_snippet', 'true')]),
+    # F29: the text whose lines are split at LF must have no other line break the scanner counts (a CR not followed by LF).
+    # The two helpers are iterator pipelines (outside the verifier's subset): contract assumed here, bounded stand-in on the real text.
+    dict(src=SN, path='fn has_lone_cr', props=[], bounded_props=P, optional=True, trusted=True, bounded_only=True,
+         bounded=dict(harness='bounded/lone_cr.rs', items=[('src/de/snippet.rs', 'fn has_lone_cr'), ('src/de/snippet.rs', 'fn lone_cr_to_lf')]),
+         ensures=[('C17:a_lone_carriage_return_is_recognised_exactly', 'r == has_lone_cr_spec(text.spec_bytes())')]),
+    dict(src=SN, path='fn lone_cr_to_lf', props=[], bounded_props=P, optional=True, trusted=True, bounded_only=True,
+         bounded=dict(harness='bounded/lone_cr.rs', items=[('src/de/snippet.rs', 'fn has_lone_cr'), ('src/de/snippet.rs', 'fn lone_cr_to_lf')]),
+         ensures=[('C17:exactly_the_lone_carriage_returns_become_line_feeds_and_every_other_byte_stays',
+                   '''r@.len() == text@.len() && encode_utf8(r@).len() == text.spec_bytes().len() && !has_lone_cr_spec(encode_utf8(r@))
+                      && forall|i: int| 0 <= i < text.spec_bytes().len() ==> #[trigger] encode_utf8(r@)[i] == (if lone_cr_at(text.spec_bytes(), i) { 0x0Au8 } else { text.spec_bytes()[i] })''')]),
     dict(src=SN, path='fn crop_source_window', props=P,
          rewrites=[
             (r'text\.is_empty\(\) \|\| location == &Location::UNKNOWN', 'str_len(text) == 0 || *location == Location::UNKNOWN', 1, 'R15'),
@@ -96,6 +106,8 @@ ITEMS = location_types() + [
             STRLEN,
          ],
          proofs=[
+            dict(before='let starts = line_starts(text);', label='C17:lines_are_split_at_line_feeds_only_in_text_that_has_no_other_line_break_the_location_counts',
+                 text='assert(!has_lone_cr_spec(text.spec_bytes()));'),
             dict(before='let window_start = starts[window_start_row - 1];', label='C17:window_is_at_most_two_lines_either_side_and_contains_the_error_line',
                  text='''assert(1 <= window_start_row <= relative_row <= window_end_row <= total_lines
                         && relative_row - window_start_row <= 2 && window_end_row - relative_row <= 2);'''),
